@@ -262,7 +262,7 @@ func c11Prog(rep *Report, c *segCase, dir, segBin, combBin string, idx int, note
 	if idx%4 == 3 {
 		c, long = dilated(c)
 	}
-	in := buildMultiProg(c.Tracks, idx%3 == 1, false, false, false)
+	in := buildMultiProg(c.Tracks, idx%3 == 1, false, false, false, false)
 	inPath := filepath.Join(dir, "in.mp4")
 	_ = ioutil.WriteFile(inPath, in, 0644)
 	judged := false
